@@ -173,7 +173,9 @@ pub fn run_scenario(seed: u64, idx: u64, n_enc: usize) -> Result<ScenOut, String
             if k == "hist+plan" {
                 return hist_then_plan(kind, &g, id, &mut rng, n_enc);
             }
-            let cfg = HistoryCfg { alphabet: sp.alphabet, max_len: sp.max_len };
+            // C05 also observes emit_wasm: in 1 of 3 histories some of the encodings go through a file (any position, incl. the first)
+            let emit_mask = { let m = if rng.chance(1, 3) { rng.range(1, 7) as u8 } else { 0 }; if n_enc > 1 { m } else { 0 } };
+            let cfg = HistoryCfg { alphabet: sp.alphabet, max_len: sp.max_len, emit_mask };
             let o = edit::run_history(&g, &mut rng, &cfg, n_enc).map_err(|e| format!("base not usable: {}", crate::runner::norm_msg(&e)))?;
             if let Some((what, p)) = &o.call_panic {
                 return Err(format!("call panic (subject of {}): {} {}", id, what, p.sig()));
@@ -229,7 +231,8 @@ fn hist_then_plan(kind: &'static str, g: &gen::GenModule, id: &str, rng: &mut Rn
     use lower::{Inj, Mode, Path, Probe};
     let sp = hist::spec(id);
     // the history driver owns the module; re-do its work here through the public pieces
-    let cfg = HistoryCfg { alphabet: sp.alphabet & !edit::A_DELETE & !edit::A_TO_IMPORT & !edit::A_REPLACE_IMPORT, max_len: 5 };
+    let emit_mask = { let m = if rng.chance(1, 3) { rng.range(1, 7) as u8 } else { 0 }; if n_enc > 1 { m } else { 0 } };
+    let cfg = HistoryCfg { alphabet: sp.alphabet & !edit::A_DELETE & !edit::A_TO_IMPORT & !edit::A_REPLACE_IMPORT, max_len: 5, emit_mask };
     let raw = crate::sym::decode(&g.bytes).map_err(|e| format!("decode: {}", e))?;
     let mut plan: Vec<Inj> = vec![];
     let mut uid = 1u32;
@@ -350,8 +353,8 @@ impl Prop for C05 {
         format!(
             "scenario pool = {} kinds round-robin: random edit histories of C06 / C07 / C08, injection plans of C15 / C21 / C22 (markers), probe plans of \
              C16-C20 on generated programs, type additions on bases with duplicate types, dense special-mode plans (several bodies resolving at one end), \
-             and histories followed by special-mode plans. After the last call `encode()` runs three times on the same Module (1 in 8 scenarios: the second \
-             encoding goes through emit_wasm to a file); bytes #1 == #2 == #3. Non-trivial = the scenario re-indexed an index space, added items, or \
+             and histories followed by special-mode plans. After the last call the module is encoded three times (in 1 of 3 history scenarios any of the three encodings, incl. the first, \
+             and in 1 of 8 plan scenarios the second, goes through emit_wasm to a file instead of encode()); bytes #1 == #2 == #3. Non-trivial = the scenario re-indexed an index space, added items, or \
              injected code; distinct = base bytes + history / plan.",
             KINDS.len()
         )
